@@ -1062,6 +1062,43 @@ def walk_own_stmts(fnode):
                 todo += h.body
 
 
+def statements_of_conditional_values(fnode):
+    """x = A if c else B   ->   if c: x = A  else: x = B          return A if c else B   ->   if c: return A  else: return B
+    when the conditional expression is the WHOLE value of the statement: the test is evaluated first and exactly one arm after it in both
+    forms.  (Augmented assignments and conditional expressions nested inside a larger expression are left alone.)"""
+    changed = False
+
+    def block(stmts):
+        nonlocal changed
+        out = []
+        for st in stmts:
+            for fld in ("body", "orelse", "finalbody"):
+                v = getattr(st, fld, None)
+                if isinstance(v, list) and v and isinstance(v[0], ast.stmt) and not isinstance(st, (ast.FunctionDef, ast.AsyncFunctionDef, ast.ClassDef)):
+                    setattr(st, fld, block(v))
+            if isinstance(st, ast.Try):
+                for h in st.handlers:
+                    h.body = block(h.body)
+            v = getattr(st, "value", None)
+            if isinstance(st, (ast.Assign, ast.Return)) and isinstance(v, ast.IfExp) \
+                    and (isinstance(st, ast.Return) or (len(st.targets) == 1 and isinstance(st.targets[0], ast.Name))):
+                a, b = copy.copy(st), copy.copy(st)
+                a.value, b.value = v.body, v.orelse
+                if isinstance(st, ast.Assign):
+                    a.targets = [copy.deepcopy(st.targets[0])]
+                    b.targets = [copy.deepcopy(st.targets[0])]
+                node = ast.copy_location(ast.If(test=v.test, body=block([a]), orelse=block([b])), st)
+                out.append(node)
+                changed = True
+                continue
+            out.append(st)
+        return out
+    fnode.body = block(fnode.body)
+    if changed:
+        ast.fix_missing_locations(fnode)
+    return changed
+
+
 def tests_of_temporaries(fnode):
     """t = E; if t: ..   (or `if not t:`)   with t a plain local bound once and read once - in that test -   ->   if E: ..
     (the inverse of `give the condition a name`; same conditions as for arguments)"""
@@ -1348,6 +1385,7 @@ def apply_synonyms(repo):
         before = ast.dump(f.node)
         f.node = _MatchToIf().visit(f.node)          # first: the passes below walk if / else arms, not match cases
         aliases_of_configuration(repo, f)
+        statements_of_conditional_values(f.node)
         tests_of_temporaries(f.node)
         arguments_of_temporaries(f.node)
         return_of_temporary(f.node)
